@@ -93,6 +93,10 @@ def _try_one(rp):
         if exe is None:
             return dict(status='build_failed')
         with tempfile.TemporaryDirectory(prefix='vreplay', dir=CACHE) as d:
+            for name, text in (rp.get('files') or {}).items():
+                pth = os.path.join(d, name)
+                os.makedirs(os.path.dirname(pth), exist_ok=True)
+                open(pth, 'w').write(text)
             try:
                 r = subprocess.run([exe], cwd=d, input=rp['stdin'].encode(), stdout=subprocess.PIPE, stderr=subprocess.PIPE, timeout=20)
                 out = dict(exit=r.returncode, stdout=r.stdout.decode(errors='replace'), stderr=r.stderr.decode(errors='replace'))
@@ -103,6 +107,8 @@ def _try_one(rp):
         if 'expect_stdout_re' in rp and not re.search(rp['expect_stdout_re'], text):
             bad = True
         if 'bad_re' in rp and re.search(rp['bad_re'], text + out['stderr']):
+            bad = True
+        if 'bad_exit' in rp and out['exit'] in rp['bad_exit']:
             bad = True
         return dict(status='reproduced' if bad else 'not_reproduced', run=out)
     return dict(status='no_native_route')
